@@ -265,17 +265,42 @@ where
     /// assert!(n1.is_connected(n2.key()));
     /// ```
     pub fn connect(&self, other: &Self, value: E) {
-        self.inner
-            .2
-            .write()
-            .unwrap()
-            .push_outbound((other.clone(), value.clone()));
-        other
-            .inner
-            .2
-            .write()
-            .unwrap()
-            .push_inbound((self.clone(), value));
+        self.with_pair(other, |this, that| {
+            this.push_outbound((other.clone(), value.clone()));
+            match that {
+                Some(that) => that.push_inbound((self.clone(), value)),
+                None => this.push_inbound((self.clone(), value)),
+            }
+        })
+    }
+
+    /// Address of the shared node, used to order lock acquisition.
+    fn addr(&self) -> usize {
+        Arc::as_ptr(&self.inner) as *const () as usize
+    }
+
+    /// Runs `f` with the adjacency lists of `self` and `other` locked for
+    /// writing (`None` for `other` if both are the same node). The lock of
+    /// the node at the lower address is taken first and both are held until
+    /// `f` returns, so operations on two nodes are atomic with respect to
+    /// each other and cannot deadlock.
+    fn with_pair<R>(
+        &self,
+        other: &Self,
+        f: impl FnOnce(&mut Adjacent<K, N, E>, Option<&mut Adjacent<K, N, E>>) -> R,
+    ) -> R {
+        if Arc::ptr_eq(&self.inner, &other.inner) {
+            let mut this = self.inner.2.write().unwrap();
+            f(&mut this, None)
+        } else if self.addr() < other.addr() {
+            let mut this = self.inner.2.write().unwrap();
+            let mut that = other.inner.2.write().unwrap();
+            f(&mut this, Some(&mut that))
+        } else {
+            let mut that = other.inner.2.write().unwrap();
+            let mut this = self.inner.2.write().unwrap();
+            f(&mut this, Some(&mut that))
+        }
     }
 
     /// Connects this node to another node. The connection is created in both
@@ -303,12 +328,17 @@ where
     /// }
     /// ```
     pub fn try_connect(&self, other: &Node<K, N, E>, value: E) -> Result<(), Error> {
-        if self.is_connected(other.key()) {
-            Err(Error::EdgeAlreadyExists)
-        } else {
-            self.connect(other, value);
+        self.with_pair(other, |this, that| {
+            if this.find_adjacent(other.key()).is_some() {
+                return Err(Error::EdgeAlreadyExists);
+            }
+            this.push_outbound((other.clone(), value.clone()));
+            match that {
+                Some(that) => that.push_inbound((self.clone(), value)),
+                None => this.push_inbound((self.clone(), value)),
+            }
             Ok(())
-        }
+        })
     }
 
     /// Disconnect two nodes from each other. The connection is removed in both
@@ -335,22 +365,29 @@ where
     /// ```
     pub fn disconnect(&self, other: &K) -> Result<E, Error> {
         match self.find_adjacent(other) {
-            Some(other) => {
+            // The edge may be gone by the time both nodes are locked; then
+            // the removal reports it as not found.
+            Some(other) => self.with_pair(&other, |this, that| {
                 // A half-edge listed as inbound here is listed as outbound at
                 // the other end and vice versa; remove both halves.
-                let inbound = self.inner.2.write().unwrap().remove_inbound(other.key());
-                match inbound {
+                match this.remove_inbound(other.key()) {
                     Ok(edge) => {
-                        other.inner.2.write().unwrap().remove_outbound(self.key())?;
+                        match that {
+                            Some(that) => that.remove_outbound(self.key())?,
+                            None => this.remove_outbound(self.key())?,
+                        };
                         Ok(edge)
                     }
                     Err(_) => {
-                        let edge = self.inner.2.write().unwrap().remove_outbound(other.key())?;
-                        other.inner.2.write().unwrap().remove_inbound(self.key())?;
+                        let edge = this.remove_outbound(other.key())?;
+                        match that {
+                            Some(that) => that.remove_inbound(self.key())?,
+                            None => this.remove_inbound(self.key())?,
+                        };
                         Ok(edge)
                     }
                 }
-            }
+            }),
             None => Err(Error::EdgeNotFound),
         }
     }
@@ -383,24 +420,37 @@ where
     /// assert!(n1.is_orphan());
     /// ```
     pub fn isolate(&self) {
-        for Edge(_, v, _) in self.iter() {
-            if v.inner
-                .2
-                .write()
-                .unwrap()
-                .remove_inbound(self.key())
-                .is_err()
-            {
-                v.inner
-                    .2
-                    .write()
-                    .unwrap()
-                    .remove_outbound(self.key())
-                    .unwrap();
+        loop {
+            // Lock this node and all its neighbours, lowest address first.
+            let mut nodes = self.inner.2.read().unwrap().neighbours();
+            nodes.push(self.clone());
+            nodes.sort_by_key(|node| node.addr());
+            nodes.dedup_by_key(|node| node.addr());
+            let mut guards: Vec<_> = nodes
+                .iter()
+                .map(|node| node.inner.2.write().unwrap())
+                .collect();
+            let this = nodes
+                .iter()
+                .position(|node| node.addr() == self.addr())
+                .unwrap();
+            // A neighbour gained since the snapshot is not locked: start over.
+            let complete = guards[this]
+                .neighbours()
+                .iter()
+                .all(|n| nodes.iter().any(|node| node.addr() == n.addr()));
+            if !complete {
+                continue;
             }
+            for (i, guard) in guards.iter_mut().enumerate() {
+                if i != this {
+                    guard.remove_all(self.key());
+                }
+            }
+            guards[this].clear_outbound();
+            guards[this].clear_inbound();
+            return;
         }
-        self.inner.2.write().unwrap().clear_outbound();
-        self.inner.2.write().unwrap().clear_inbound();
     }
 
     /// Returns true if the node is an oprhan. Orphan nodes are nodes that have
